@@ -310,6 +310,9 @@ pub fn run_worker(ctx: &Ctx, rep: &mut Report, chunk: usize, nchunks: usize) {
         }
         rep.add("enumerated:short-strings", l);
         let jobs1 = [j.clone()];
+        // every job has its own generator stream
+        let mut ctx1 = ctx1.clone();
+        ctx1.seed = mix(ctx.seed, &["c10-job", &ji.to_string()]);
         run_prop_jobs(
             rep,
             &ctx1,
